@@ -95,6 +95,11 @@ func genMeta(r *common.Rand) string {
 	if r.Chance(4) {
 		return "%zz" // unparsable
 	}
+	if r.Chance(12) {
+		// spellings that only a faithful query parser reads correctly
+		parts = append(parts, []string{"st%61te=inactive", "state=in%61ctive", "state=inactive;x=1", "x=1;state=inactive", "group=" + c14Groups[0] + "+x",
+			"gr%6fup=" + c14Groups[1], "state", "&&", "=inactive", "state=Inactive", "group", "%zz=1"}[r.Intn(12)])
+	}
 	for i := range parts {
 		j := i + r.Intn(len(parts)-i)
 		parts[i], parts[j] = parts[j], parts[i]
@@ -540,5 +545,22 @@ func c14Filter(o *common.Out, id, group string, s snap) {
 		o.Fail(id, "filter-at-construction", fmt.Sprintf("group %q: a new client selects among %v, the property allows %v", group, got2, want), abstract)
 	}
 	o.Case(id, fmt.Sprintf("flt %d %s", internGroup(group), s.modelSpec()), idsOf(got), len(s) >= 2)
+	// the same with the raw metadata strings: the model parses them itself (its own url.ParseQuery)
+	var raw, kept []string
+	for _, k := range mapKeys(s) {
+		raw = append(raw, hx([]byte(k))+"~"+hx([]byte(s[k])))
+	}
+	for _, k := range got {
+		kept = append(kept, hx([]byte(k)))
+	}
+	sort.Strings(kept)
+	rs, ks := "-", "-"
+	if len(raw) > 0 {
+		rs = strings.Join(raw, ";")
+	}
+	if len(kept) > 0 {
+		ks = strings.Join(kept, ",")
+	}
+	o.Case(id+"r", fmt.Sprintf("fltraw %s %s", hx([]byte(group)), rs), ks, len(s) >= 2)
 	o.Count("filter")
 }
